@@ -41,6 +41,8 @@ def gen_cases(ctx, n_hist, n_tree, n_consumer, tree_ops=(6, 7), big=False,
             # the dispatcher is copied (copy.deepcopy) in the middle of the history and the copy
             # goes its own way: the two must not influence each other
             c["fork_at"] = rng.choice([1, 1, 2, 3, rng.randint(1, 10)])
+        elif rng.random() < 0.06:
+            c["raiser"] = True      # one observer raises once in the middle; the caller carries on
         elif rng.random() < 0.12:
             # a second dispatcher for the SAME instance object (same filter object) follows its own
             # history, interleaved with this one: the two must not influence each other
@@ -110,6 +112,26 @@ def run_history(ctx, case, hooks: Hooks, instance=None):
     k = 0
     abandon = list(case.get("abandon_after") or []) if explicit is None else []
     fork_at = case.get("fork_at") if explicit is None else None
+    raiser = None
+    if case.get("raiser") and explicit is None:
+        from job_shop_lib.dispatching import DispatcherObserver
+
+        class Raiser(DispatcherObserver):
+            _is_singleton = False
+
+            def __init__(self, dispatcher, at):
+                super().__init__(dispatcher)
+                self.at, self.n = at, 0
+
+            def update(self, scheduled_operation):
+                self.n += 1
+                if self.n == self.at:
+                    raise RuntimeError("observer failure injected by the harness")
+
+            def reset(self):
+                pass
+        raiser = Raiser(run.d, rng.randint(1, 4))
+        ctx.count("histories_with_an_observer_that_fails_once")
     sib = None
     if case.get("sibling") and explicit is None:
         from job_shop_lib.dispatching import Dispatcher
@@ -201,13 +223,28 @@ def run_history(ctx, case, hooks: Hooks, instance=None):
             # other library components look at the running dispatcher / its schedule in the middle
             # of the history: a helper observer is created late, the schedule is plotted, turned
             # into a dictionary ... none of this may change the schedule
-            what = rng.choice(["late_observer", "late_observer", "late_observer", "to_dict", "to_dict", "plot"])
+            what = rng.choice(["late_observer", "late_observer", "late_observer", "to_dict", "to_dict", "plot",
+                               "derived_instance", "derived_instance"])
             if what == "late_observer":
                 from job_shop_lib.dispatching import UnscheduledOperationsObserver
                 from job_shop_lib.dispatching.feature_observers import IsCompletedObserver
                 run.d.create_or_get_observer(rng.choice([UnscheduledOperationsObserver, IsCompletedObserver]))
             elif what == "to_dict":
                 run.d.schedule.to_dict()
+            elif what == "derived_instance":
+                # another instance is derived from a deep copy of this one's jobs (a sub-problem,
+                # another job order): the original and its operations are none of its business
+                import copy
+                from job_shop_lib import JobShopInstance
+                jobs2 = copy.deepcopy(run.instance.jobs)
+                jobs2 = (jobs2[1:] or jobs2) if rng.random() < 0.5 else jobs2[::-1]
+                JobShopInstance(jobs2, name="derived")
+                stamps = [(op.job_id, op.position_in_job, op.operation_id) for op in run.ops]
+                if stamps != [(run.r.op_job[i], run.r.op_pos[i], i) for i in range(run.r.num_ops)]:
+                    hooks.fork_diverged(run, {"who": "original", "got": stamps[:12],
+                                              "when": "after an instance was derived from a deep copy of its jobs "
+                                                      "in the middle of the history"})
+                    return run
             elif len(run.ops) <= 40 and inst.get("cls") != "fractional":
                 import matplotlib.pyplot as plt
                 from job_shop_lib.visualization import plot_gantt_chart
@@ -225,7 +262,22 @@ def run_history(ctx, case, hooks: Hooks, instance=None):
             if pol == "mixed":
                 pol = rng.choice(gen.POLICIES)
             o, m = run.choose(rng, pol)
-        run.dispatch(o, m, explicit_machine=rng.random() < 0.7)
+        try:
+            run.dispatch(o, m, explicit_machine=rng.random() < 0.7)
+        except RuntimeError:
+            if raiser is None:
+                raise
+            # an observer failed during the notification: the caller carries on; whether the
+            # operation counts is read from the schedule, everything else must agree with that
+            ctx.count("dispatches_interrupted_by_a_failing_observer")
+            if any(so.operation is run.ops[o] for lst in run.d.schedule.schedule for so in lst):
+                run.r.apply(o, m)
+            bad = _state_vs_ref(run)
+            if bad:
+                hooks.fork_diverged(run, dict(bad, who="original",
+                                              when="after an observer raised in the middle of the history"))
+                return run
+            continue
         k += 1
         ctx.count("dispatches")
         hooks.after(run, o, m)
@@ -235,6 +287,8 @@ def run_history(ctx, case, hooks: Hooks, instance=None):
                 hooks.fork_diverged(run, dict(bad, who="sibling", when="after a dispatch on the "
                                               "first dispatcher for the same instance object"))
                 return run
+    if raiser is not None and raiser in run.d.subscribers:
+        run.d.unsubscribe(raiser)
     hooks.end(run)
     return run
 
